@@ -501,14 +501,8 @@ impl Streams {
 
 /// One predicate on one table state: oracle + model streams.  `fixed` marks corpus cases.
 pub async fn check_pred(t: &Table, sql: &str, rows: &[(u64, u64, Row)], info: &Info, ixs: &[Ix], names: &[String], st: &mut Streams, sink: &mut Sink, tag: &str) {
-    let mut with = t.ids(sql, true).await;
+    let with = t.ids(sql, true).await;
     let without = t.ids(sql, false).await;
-    // PLANTED (sanity test, temporary): the index path loses its first row now and then
-    if let Ok(a) = &mut with {
-        if tag == "e2e" && a.len() > 1 && sql.len() % 5 == 0 {
-            a.remove(0);
-        }
-    }
     let case = |extra: Value| -> Value {
         json!({"arm": tag, "filter": sql, "history": t.hist, "columns": t.cols.iter().map(|c| format!("{} {:?}{} {:?}", c.name, c.ty, if c.nullable { " null" } else { "" }, c.indices)).collect::<Vec<_>>(), "extra": extra})
     };
@@ -631,7 +625,7 @@ pub async fn run(args: &Args, sink: &mut Sink, rng: &mut Rng, kinds: &[IndexType
     if let Err(e) = corpus(&mut st, sink).await {
         sink.oracle_fail(None, "corpus table could not be built", json!({"error": e}));
     }
-    let ntables = args.vol(10, 150);
+    let ntables = args.vol(8, 150);
     let npreds = args.vol(22, 40);
     for ti in 0..ntables {
         let with_tags = with_tags_every > 0 && (ti as u64) % with_tags_every == 0;
